@@ -76,7 +76,7 @@ func ndRunGated(b *ndBehaviour, backend string) (*ndMismatch, int, map[string]in
 						}
 					}
 				}); perr != nil {
-					f = &ndFail{"panic", perr.Error()}
+					f = &ndFail{Kind: "panic", Msg: perr.Error()}
 				}
 				done <- f
 			}()
@@ -100,7 +100,7 @@ func ndRunGated(b *ndBehaviour, backend string) (*ndMismatch, int, map[string]in
 				f = r.check(&b.Steps[i].Expect)
 			}
 		}); perr != nil {
-			f = &ndFail{"panic", perr.Error()}
+			f = &ndFail{Kind: "panic", Msg: perr.Error()}
 		}
 		if f != nil {
 			return &ndMismatch{Backend: backend, Step: i, Fail: f, Steps: b.Steps[:i+1], Shape: ndShape(b, i), SharedKV: ndSharesKV(b, i)}, nReads, gates
@@ -269,7 +269,7 @@ func crashOne(self string, b *ndBehaviour, behFile string, roots map[string]node
 		fPre = r.check(&preF)
 		fPost = r.check(&post)
 	}); perr != nil {
-		return fail("after-reopen", &ndFail{"panic", perr.Error()})
+		return fail("after-reopen", &ndFail{Kind: "panic", Msg: perr.Error()})
 	}
 	switch {
 	case fPost == nil:
@@ -291,7 +291,7 @@ func crashOne(self string, b *ndBehaviour, behFile string, roots map[string]node
 			f = r.check(&post)
 		}
 	}); perr != nil {
-		f = &ndFail{"panic", perr.Error()}
+		f = &ndFail{Kind: "panic", Msg: perr.Error()}
 	}
 	if f != nil {
 		if f.Kind == "error" {
@@ -307,7 +307,7 @@ func crashOne(self string, b *ndBehaviour, behFile string, roots map[string]node
 				f = r.check(&b.Steps[i].Expect)
 			}
 		}); perr != nil {
-			f = &ndFail{"panic", perr.Error()}
+			f = &ndFail{Kind: "panic", Msg: perr.Error()}
 		}
 		if f != nil {
 			res.Steps = b.Steps[:i+1]
